@@ -697,13 +697,14 @@ func dischargeAll(reps []*FuncReport, timeoutS int, par int, keepDir string) {
 		}
 		// term construction is not concurrent: build the script here, solve in parallel
 		assume := j.o.Assume
-		if len(j.o.ctx.Axioms) > 0 {
-			assume = append(append([]*Term{}, j.o.ctx.Axioms...), assume...)
-		}
 		relaxedScript := ""
-		if extra := j.o.ctx.preInstantiate(assume, j.o.Goal, instRounds, 200); len(extra) > 0 {
+		if extra := j.o.ctx.preInstantiate(append(append([]*Term{}, j.o.ctx.Axioms...), assume...), j.o.Goal, instRounds, 200); len(extra) > 0 {
 			assume = append(append([]*Term{}, assume...), extra...)
 			j.o.Instances = len(extra)
+		}
+		// global facts (initial-heap axioms, bridge-term facts) - after instantiation, which may add some
+		if len(j.o.ctx.Axioms) > 0 {
+			assume = append(append([]*Term{}, j.o.ctx.Axioms...), assume...)
 		}
 		hasQ := false
 		var rel []*Term
